@@ -176,7 +176,9 @@ run_close(void *arg)
 	rv_recv = rv_send = rv_ctx = rv_close1 = rv_close2 = -1;
 	VH_OK(P[p].open(&S));
 	VH_OK(nng_pipe_notify(S, NNG_PIPE_EV_ADD_POST, pipe_cb, NULL));
-	int with_peer = (c->what != W_NEGO);
+	// W_CTXOP runs on a bare socket (no pipe): close then never has to wait
+	// for the reaper, which is what lets it overtake a releasing thread
+	int with_peer = (c->what != W_NEGO && c->what != W_CTXOP);
 	int rawfd     = -1;
 	char url[64];
 	snprintf(url, sizeof(url), "inproc://c10-%s", P[p].name);
@@ -184,7 +186,7 @@ run_close(void *arg)
 	if (with_peer) {
 		VH_OK(P[p].peer(&PEER));
 		VH_OK(nng_dial(PEER, url, &DL, 0));
-	} else {
+	} else if (c->what == W_NEGO) {
 		nng_listener l2;
 		rawfd = vp_attach(S, &l2); // connected, but never says a word
 	}
@@ -396,11 +398,11 @@ main(int argc, char **argv)
 			c.arg      = a;
 			for (int i = 0; i < VB_NB; i++)
 				c.budget[i] = 0;
-			c.budget[VB_PREEMPT] = (T || w == W_CTXOP) ? 2 : 1;
+			c.budget[VB_PREEMPT] = w == W_CTXOP ? 3 : T ? 2 : 1;
 			c.budget[VB_SWITCH]  = (T || w == W_CTXOP) ? 2 : 1;
 			c.budget[VB_WAKE1]   = 1;
 			c.budget[VB_ENV]     = -1;
-			c.total              = (T || w == W_CTXOP) ? 2 : 1;
+			c.total              = w == W_CTXOP ? 3 : T ? 2 : 1;
 			c.deadline_s         = T ? 40 : (w == W_CTXOP ? 30 : 6);
 			vx_explore(&c, NULL);
 		}
